@@ -4,6 +4,7 @@ import LP.Props.C05ModP
 import LP.Props.C05FpDiv
 import LP.Props.C05FpIrr
 import LP.Props.C05CertModP
+import LP.Props.C05Unique
 #print axioms LP.Factor.toPolyZ_mul
 #print axioms LP.Factor.toPolyZ_pow
 #print axioms LP.Factor.toPolyZ_trim
@@ -23,3 +24,4 @@ import LP.Props.C05CertModP
 #print axioms LP.FPoly.irreducibleFp_sound
 #print axioms LP.leadingCoeff_toPolyZ
 #print axioms LP.C05_certModP_sound
+#print axioms LP.C05_factorization_unique
